@@ -232,6 +232,10 @@ where
         self.session.set_session_stop_reason(reason)
     }
 
+    fn abandon_pending_deliveries(&mut self) {
+        self.session.abandon_pending_deliveries()
+    }
+
     fn session_stop_reason(&self) -> &Arc<OnceLock<SessionStopReason>> {
         self.session.session_stop_reason()
     }
